@@ -92,6 +92,8 @@ pub enum PendingSpec {
     /// naming the reported receipt and a further one. The client is only held to "the one it
     /// reports" in BMP 87; the listed-only one is not a dangling pre-authorisation for the oracles.
     DanglingWithList,
+    /// The same, but the TLV list names only the further receipt, not the one in BMP 87.
+    DanglingWithOtherList,
 }
 
 #[derive(Clone, Debug, PartialEq, Eq, Serialize, Deserialize)]
@@ -1057,7 +1059,7 @@ impl PtConn {
                         }
                         PendingSpec::NoneFfff => rc::AbortExtra::NoneMarker,
                         PendingSpec::NoBmp => rc::AbortExtra::None,
-                        PendingSpec::Dangling | PendingSpec::DanglingAt(_) | PendingSpec::DanglingWithList => {
+                        PendingSpec::Dangling | PendingSpec::DanglingAt(_) | PendingSpec::DanglingWithList | PendingSpec::DanglingWithOtherList => {
                             let r = match p {
                                 // (unless the ledger already knows that number: an earlier or current transaction)
                                 PendingSpec::DanglingAt(r) if !pt.ledger.contains_key(&r) => r,
@@ -1077,7 +1079,7 @@ impl PtConn {
                                 },
                             );
                             pt.requests[req].dangling_reported = Some(r);
-                            if p == PendingSpec::DanglingWithList {
+                            if matches!(p, PendingSpec::DanglingWithList | PendingSpec::DanglingWithOtherList) {
                                 let r2 = pt.issue_receipt();
                                 pt.ledger.insert(
                                     r2,
@@ -1099,8 +1101,11 @@ impl PtConn {
                     if let Some((r, r2)) = listed {
                         let mut body = vec![0xb8, 0x87];
                         body.extend(rc::bcd(r as u64, 2));
-                        let mut list = vec![0x08, 0x02];
-                        list.extend(rc::bcd(r as u64, 2));
+                        let mut list = vec![];
+                        if p == PendingSpec::DanglingWithList {
+                            list.extend([0x08, 0x02]);
+                            list.extend(rc::bcd(r as u64, 2));
+                        }
                         list.extend([0x08, 0x02]);
                         list.extend(rc::bcd(r2 as u64, 2));
                         let mut t = vec![0x23, list.len() as u8];
